@@ -240,8 +240,9 @@ S.item(
 S.item(
     "solver.emits_once.isolated_vertex",
     site="graphiq.solvers.time_reversed_solver:TimeReversedSolver.solve",
-    bound="all labelled graphs WITH an isolated vertex n<=4 (thorough n<=5), graph input, stabilizer compiler",
-    exhaustive=True,
+    bound="fixed sample, seed-independent (touches known finding C02-F1): all 29 labelled graphs WITH an isolated vertex on "
+    "n<=4 vertices (thorough adds every 6th of the 256 on 5 vertices: 43), graph input, stabilizer compiler",
+    exhaustive=False,
     clause="same for targets with isolated vertices",
 )(emits_once_case)
 
@@ -338,7 +339,7 @@ def run(tier, seed):
     S.map("height_dict.height_max", small[:: (1 if thorough else 7)] + graphs, nontrivial=lambda i: ("adj" in i and has_edge(i)) or ("x" in i and len(i["x"]) > 1))
 
     # solver
-    alloc, once, once_iso = [], [], []
+    alloc, once = [], []
     for n in range(1, nmax + 1):
         for edges in C02._graphs(n):
             iso = C02._has_isolated(n, edges)
@@ -347,8 +348,6 @@ def run(tier, seed):
                 alloc.append(case)
                 if not iso:
                     once.append(case)
-                elif rep == "g":
-                    once_iso.append(case)
             if n >= 3 and not iso:
                 p = rng.permutation(n).tolist()
                 alloc.append({"n": n, "edges": edges, "rep": "g", "comp": "stab", "order": p})
@@ -362,6 +361,8 @@ def run(tier, seed):
                 continue
             seen.add(key)
             once.append({"n": 6, "edges": edges, "rep": "g", "comp": "stab"})
+    once_iso = [c for c in C02.isolated_cases(tier) if c["rep"] == "g" and c["comp"] == "stab"]  # fixed list (known finding C02-F1)
+    S.max_failures_per_item = 400
     nt = lambda i: len(i["edges"]) > 0
     S.map("solver.n_emitter", alloc, nontrivial=nt)
     S.map("solver.emits_once", once, nontrivial=nt)
